@@ -76,7 +76,7 @@ BuildEv(s0, in, s1) ==
                            !.wf = b.bad # "badobj", !.robjs = robjs,
                            !.obid = IF isCtl THEN 2000 + CtlIx(b.ob) ELSE bid]
                  @@ [base EXCEPT !.cls = IF b.bad # "" THEN b.bad ELSE "ok"]
-         [] in.k = "conf" -> rxf(0, in.seq, in.uns, <<>>, 999) @@ base
+         [] in.k = "conf" -> [rxf(0, in.seq, in.uns, <<>>, 999) EXCEPT !.src = Fld(in, "src", "M")] @@ base
          [] OTHER -> base
 
 ResetEv == [k |-> "reset", t |-> 0, cls |-> "", tag |-> "", id |-> "mc", cfg |-> ModelCfg]
